@@ -31,7 +31,8 @@ K_NAME = ('K_heap (Heap.check_kcase extracted to OCaml: run_hevents = deepcopy w
           'one of the two memo policies of copy() the property allows: a fresh deepcopy memo per __dict__ entry, as the code does, or '
           'one memo for all entries)')
 RULE = ('a case is a history over containers, parser-style BaseModel classes (CHECK is ENDOGENOUS or a separate list), Alias/Tracer '
-        'mixin combinations and linkers with two submodels: instantiation (range / tuple / list / caller-shared list span, strict), '
+        'mixin combinations and linkers with 1-3 submodels (identifiers incl. the default name \'_\', default / explicit / clashing linker '
+        'names, l.name = ... as an operation): instantiation (range / tuple / list / caller-shared list span, strict), '
         'the three copy routes at random points, reindex, operations on either side (item / whole-series / scalar assignment, '
         'add_variable of five dtypes, attribute sets (scalars, lists, lists of lists, sets), strict, list mutations of names / check / endogenous / index / class lists, alias '
         'dict writes, solve_t with scripted _evaluate incl. traced solves, trace_t, Trace.names mutation, linker solve and submodel '
@@ -54,7 +55,10 @@ ASSUMPTIONS = ['claim is PARTIAL: the heap model abstracts CPython object semant
                'values dtype) and the order of every other list ARE compared (K is stricter than the oracle there: a K-only disagreement '
                'is reported as no-failing-input-found)',
                'the span-equality check between the submodels of a linker (InitialisationError) is not modelled: a failing construction '
-               'ends the history on both sides',
+               'ends the history on both sides; the name-vs-identifier test (DuplicateNameError) IS modelled (ELinkerInit, linker_copy_M)',
+               'copy() constructs a new instance of the class AS IT IS NOW: a copy route that raises is a violation unless the object is '
+               'one its own constructor refuses - a class mutated so that M(span) itself raises (duplicate in NAMES, an alias shadowing a '
+               'variable; such mutations are generated), or a linker whose name was set to one of its submodel identifiers',
                'equality at copy time = equality of the whole __dict__ (values, dtypes, lists, entries); aliasing BETWEEN '
                'entries of one object (only the user creates it: m.mine = m.names) may be kept or dropped by copy() - both memo policies '
                'are accepted by K and covered by the theorems - aliasing the copy ADDS is a failure',
@@ -1146,6 +1150,25 @@ def expected_shared_pairs(case):
             for b in users:
                 if a < b:
                     pairs.add((a, b))
+    # a linker shares (through its members) with everything its members are allowed to share with: closure
+    linkers, idx = [], len(case['classes'])
+    for ev in case['events']:
+        if ev[0] in ('init', 'copy', 'linker_init', 'reindex'):
+            if ev[0] == 'linker_init':
+                linkers.append((idx, [j for _, j in ev[2]]))
+            idx += 1
+    changed = True
+    while changed:
+        changed = False
+        for li, members in linkers:
+            for m in members:
+                for (a, b) in list(pairs):
+                    other = b if a == m else a if b == m else None
+                    if other is not None and other != li:
+                        pr = (min(other, li), max(other, li))
+                        if pr not in pairs:
+                            pairs.add(pr)
+                            changed = True
     return pairs
 
 
